@@ -913,6 +913,21 @@ func streamCodec(g *core.G) {
 				if it := f.Tag.Get("control"); it != "" {
 					key = it
 				}
+				if r.Chance(1, 8) {
+					// a field whose name differs from a known one only in letter case is an unknown
+					// field of this struct (the decoder matches names exactly); it comes instead of
+					// the known one or next to it, alone or in two spellings
+					recase := func(k string) string {
+						return r.Pick([]string{strings.ToLower(k), strings.ToUpper(k), strings.ToLower(k[:1]) + k[1:], k[:len(k)-1] + strings.ToUpper(k[len(k)-1:])})
+					}
+					lines = append(lines, recase(key)+": "+genFieldText(r, f))
+					if r.Bool() {
+						lines = append(lines, recase(key)+": "+genFieldText(r, f))
+					}
+					if r.Bool() {
+						continue
+					}
+				}
 				lines = append(lines, key+": "+genFieldText(r, f))
 			}
 			for k := r.Intn(3); k > 0; k-- {
